@@ -10,6 +10,7 @@ import (
 	"strings"
 
 	mhtml "github.com/tdewolff/minify/v2/html"
+	xhtml "golang.org/x/net/html"
 	"verifharness/internal/vh"
 )
 
@@ -57,7 +58,7 @@ var fixedRefs = []string{"&amp;", "&lt;", "&gt;", "&quot;", "&apos;", "&nbsp;", 
 
 var ampCombos = []string{"&amp;lt;", "&amp;#60;", "&#38;amp;", "&amp;amp;", "&amp;copy;", "&#38;#38;", "&amp;&amp;", "&#x26;lt;", "&amp;#x3c;", "&amp;nbsp", "&amp;x", "&amp; ", "&amp;=", "&amp;#", "&AMP;gt;"}
 
-var plainWords = []string{"a", "b", "c", "foo", "bar", "x1", "é", "漢字", "I", "2>1", "a;b", "q=1", "it's", "\"q\"", "`t`", "end.", "-", "--", "->", "a&b", "a&&b", "&", "& ", "&=", "&1", "x&z=2", "]]>", "{", "}}", "%", "</", "a\u00a0b", "\u200b", "\u2028", "\v"}
+var plainWords = []string{"a", "b", "c", "foo", "bar", "x1", "é", "漢字", "I", "2>1", "a;b", "q=1", "it's", "\"q\"", "`t`", "end.", "-", "--", "->", "a&b", "a&&b", "&", "& ", "&=", "&1", "x&z=2", "]]>", "{", "}}", "%", "a\u00a0b", "\u200b", "\u2028"}
 
 // legacy no-semicolon references and what follows them: the K18 shape
 var k18Shapes = []string{"a&lt&semi;b", "&copy&semi;", "&amp&semi;", "&lt&#59;", "&gt&#x3b;x", "&not&semi;"}
@@ -92,7 +93,7 @@ func (g *Gen) word() string {
 		return plainWords[g.r.Intn(len(plainWords))] + g.ref()
 	case 3:
 		if g.tmpl && g.r.Bool() {
-			return g.r.Pick("{{ x }}", "{{x}}", "{{ if a }}", "{{ \"s\" }}", "{{ 'a  b' }}", "{{.A | f \"<b>\"}}")
+			return g.r.Pick("{{ x }}", "{{x}}", "{{ if a }}", "{{ \"s\" }}", "{{ 'a  b' }}", "{{.A | f \"x\"}}")
 		}
 	}
 	return plainWords[g.r.Intn(len(plainWords))]
@@ -149,7 +150,11 @@ func fixAmp(s string) string {
 			continue // & followed by non-alnum: fine
 		}
 		if j < len(s) && s[j] == ';' {
-			continue // a complete reference that we generated
+			if xhtml.UnescapeString(s[i:j+1]) != s[i:j+1] {
+				continue // a complete, existing named reference
+			}
+			sb.WriteString("amp;") // would be an ambiguous ampersand
+			continue
 		}
 		// bare & + alnum run without ';': conforming only if no legacy name is a prefix of the run
 		if hasLegacyPrefix(s[i+1 : j]) {
@@ -331,7 +336,9 @@ func (g *Gen) inlineOrAtom(c ctx) []*Node {
 		} else {
 			cc.depth--
 			n.Kids = g.flowKids(cc)
-			g.avoidTrailingP(n)
+			if tag == "slot" || tag == "x-y" || tag == "my-el" {
+				g.avoidTrailingP(n)
+			}
 		}
 	case "bdo":
 		n.Attrs = append(n.Attrs, g.mkAttr("dir", g.r.Pick("ltr", "rtl")))
@@ -582,7 +589,6 @@ func (g *Gen) atom(c ctx) *Node {
 				rest = g.flowKids(cc)
 			}
 			n.Kids = append(n.Kids, rest...)
-			g.avoidTrailingP(n)
 			return n
 		case "canvas":
 			n := g.elem("canvas")
@@ -592,7 +598,6 @@ func (g *Gen) atom(c ctx) *Node {
 				cc.depth--
 				n.Kids = g.flowKids(cc)
 			}
-			g.avoidTrailingP(n)
 			return n
 		case "iframe":
 			if c.noInter {
@@ -665,7 +670,6 @@ func (g *Gen) atom(c ctx) *Node {
 				cc.depth--
 				n.Kids = g.flowKids(cc)
 			}
-			g.avoidTrailingP(n)
 			return n
 		case "datalist":
 			n := g.elem("datalist")
@@ -695,7 +699,6 @@ func (g *Gen) atom(c ctx) *Node {
 				rest = g.flowKids(cc)
 			}
 			n.Kids = append(n.Kids, rest...)
-			g.avoidTrailingP(n)
 			return n
 		}
 	}
@@ -1209,7 +1212,7 @@ func (g *Gen) boolAttr(name string) Attr {
 	return Attr{Name: name, NoVal: true}
 }
 
-var freeAlphabet = []string{"a", "b", "Z", "1", " ", " ", "\"", "'", "=", "<", ">", "`", "&", "&", ";", "/", "\t", "\n", "é", "#", "x", "lt", "amp", "#60", "gt;", "-", "?", "漢", "{", "}", "%", "+", "\\", "\r", "\f"}
+var freeAlphabet = []string{"a", "b", "Z", "1", " ", " ", "\"", "'", "=", "<", ">", "`", "&", "&", ";", "/", "\t", "\n", "é", "#", "x", "lt", "amp", "#60", "gt;", "-", "?", "漢", "{", "}", "%", "+", "\\", "\f"}
 
 func (g *Gen) freeVal() string {
 	switch g.r.Intn(6) {
